@@ -595,6 +595,9 @@ func report(prop, tier string, outs []*WorkerOut, evidence, replayDir, knownPath
 	for _, f := range findings {
 		if f.Prop != prop {
 			notes[f.Prop]++
+			if os.Getenv("STREAMMC_SHOW_NOTES") != "" {
+				fmt.Printf("  note [%s] %s: %s\n", f.Prop, f.Key, trunc(f.Msg, 400))
+			}
 			continue
 		}
 		full := f.Key + " | " + f.Msg
